@@ -159,7 +159,7 @@ type c03ProgGen struct {
 	inMeth   bool
 	inStat   bool // inside a class static block: no return, no await
 	modItems bool // the statement list being generated is the top level of a module
-	forHead  bool // inside the head of a for statement: keep `in` out of binding patterns (KNOWN_FINDINGS c03-accept:in-inside-for-binding-pattern)
+	forHead  bool // inside the head of a for statement (the initializers and computed keys inside a binding pattern are [+In] there too; rejected before 4c9b0c4)
 	labels   []string
 }
 
@@ -605,7 +605,7 @@ func (g *c03ProgGen) binding(depth int, names *[]string) c03Piece {
 			nm := g.fresh()
 			*names = append(*names, nm)
 			if r.Chance(1, 3) {
-				d := g.expr(c03NtAssignment, depth-1, !g.forHead)
+				d := g.expr(c03NtAssignment, depth-1, true)
 				parts = append(parts, nm, "=", d)
 				strs = append(strs, " Binding("+nm+" = "+d.str+")")
 			} else {
@@ -613,7 +613,7 @@ func (g *c03ProgGen) binding(depth int, names *[]string) c03Piece {
 				strs = append(strs, " Binding("+nm+")")
 			}
 		case r.Chance(1, 4): // computed key
-			k := g.expr(c03NtAssignment, depth-1, !g.forHead)
+			k := g.expr(c03NtAssignment, depth-1, true)
 			be := g.bindingElement(depth-1, names)
 			parts = append(parts, "[", k, "]", ":", be)
 			strs = append(strs, " "+c03PropName(k.str)+": "+be.str)
@@ -640,7 +640,7 @@ func (g *c03ProgGen) binding(depth int, names *[]string) c03Piece {
 func (g *c03ProgGen) bindingElement(depth int, names *[]string) c03Piece {
 	b := g.binding(depth, names)
 	if g.r.Chance(1, 3) {
-		d := g.expr(c03NtAssignment, depth-1, !g.forHead)
+		d := g.expr(c03NtAssignment, depth-1, true)
 		return c03S("Binding("+b.str+" = "+d.str+")", b, "=", d)
 	}
 	return c03S("Binding("+b.str+")", b)
@@ -813,10 +813,6 @@ func (g *c03ProgGen) method(depth int, static bool) c03Piece {
 	}
 	name, nstr := g.propName(depth)
 	parts = append(parts, name)
-	if nstr == "async" {
-		// `async <newline> (` : the parser loses `static` there (KNOWN_FINDINGS, fixed probe c03-tree:class-async-newline)
-		parts = append(parts, c03NoLT)
-	}
 	var ps c03Piece
 	var pstr string
 	c := g.save()
@@ -868,7 +864,7 @@ func (g *c03ProgGen) class(depth int, named, decl bool) c03Piece {
 		static := r.Chance(1, 4)
 		switch r.Intn(4) {
 		case 0: // field
-			nm := []string{"f", "#" + g.fresh(), "'s'", "5", "h", "'a b'"}[r.Intn(6)]
+			nm := []string{"f", "#" + g.fresh(), "'s'", "5", "h", "'a b'", "async", "async"}[r.Intn(8)]
 			fs := "Field("
 			if static {
 				parts = append(parts, "static")
@@ -876,7 +872,8 @@ func (g *c03ProgGen) class(depth int, named, decl bool) c03Piece {
 			}
 			parts = append(parts, nm)
 			fs += c03LitName(nm)
-			if r.Bool() {
+			init := r.Bool()
+			if init {
 				c := g.save()
 				g.inFunc, g.inAsync, g.inGen = true, false, false
 				e := g.expr(c03NtAssignment, depth-1, true)
@@ -884,7 +881,13 @@ func (g *c03ProgGen) class(depth int, named, decl bool) c03Piece {
 				parts = append(parts, "=", e)
 				fs += " = " + e.str
 			}
-			parts = append(parts, ";")
+			if !init && r.Chance(1, 2) {
+				// no ';': the field ends at the line break (automatic semicolon insertion; for `async` the line break is
+				// what makes it a name: `async [no LineTerminator here] m(){}` would be an async method)
+				parts = append(parts, c03MustLT)
+			} else {
+				parts = append(parts, ";")
+			}
 			s += " " + fs + ")"
 		case 1: // static block
 			sv := g.save()
@@ -961,7 +964,8 @@ func (g *c03ProgGen) stmtList(depth, n int, braceFollows bool) c03Piece {
 		p := st.p
 		if i > 0 && sts[i-1].needEnd {
 			prev := &out
-			asi := g.r.Chance(1, 3) && !c03StartsContinuation(p.first()) && len(p.toks) > 0
+			// (a ';' after the line break would be the terminator of the previous statement, not an EmptyStatement)
+			asi := g.r.Chance(1, 3) && !c03StartsContinuation(p.first()) && len(p.toks) > 0 && p.first() != js.SemicolonToken
 			if asi {
 				p = c03B(int8(c03MustLT), p)
 			} else {
@@ -1010,7 +1014,12 @@ func (g *c03ProgGen) stmt(depth int) c03Stmt {
 	case 8: // do-while
 		b := g.loopBody(depth - 1)
 		c := g.expr(c03NtExpression, depth-1, true)
-		return c03Stmt{c03S("Stmt(do "+b.p.str+" while "+c.str+")", "do", g.closed(b), "while (", c, ")"), false, false}
+		// `do S while ( E ) ;` : the ';' is part of the statement (it may be left out: automatic semicolon insertion
+		// after the ')' even on the same line, see c03FixedPrograms); without it the statement list adds a terminator
+		if r.Bool() {
+			return c03Stmt{c03S("Stmt(do "+b.p.str+" while "+c.str+")", "do", g.closed(b), "while (", c, ")", ";"), false, false}
+		}
+		return c03Stmt{c03S("Stmt(do "+b.p.str+" while "+c.str+")", "do", g.closed(b), "while (", c, ")"), true, false}
 	case 9: // for
 		return g.forStmt(depth)
 	case 10: // switch
@@ -1398,8 +1407,8 @@ func c03WholeLanguage(r *Rng, tier string, rep *Report) {
 		o := r.Intn(4)
 		g := c03NewProgGen(r, o)
 		p := g.program(1+r.Intn(3), 1+r.Intn(4))
-		if !r.Chance(1, 5) {
-			// most programs keep every ';' on the line of the statement it ends
+		if r.Chance(1, 3) {
+			// a third of the programs keep every ';' on the line of the statement it ends
 			for j, t := range p.toks {
 				if t.ty == js.SemicolonToken && p.mode[j] == c03Free {
 					p.mode[j] = c03NoLT
@@ -1418,48 +1427,9 @@ func c03NoEmpty(s string) string {
 	return s
 }
 
-// c03ProgramCheck: like c03AcceptCheck; two known defects of the statement terminator handling are reported
-// under their own stable keys: a tree that differs from the grammar's only in EmptyStmt nodes, and a failure that
-// disappears when no ';' follows a line break.
+// c03ProgramCheck: c03AcceptCheck for a generated program (the classification of the remaining statement-terminator
+// deviation is done there)
 func c03ProgramCheck(rep *Report, r *Rng, p c03Piece, src []byte, o int) {
-	ast, err, pan := c03ParseJS(src, o)
-	key := fmt.Sprintf("program:%q/%d", src, o)
-	if pan == nil && err == nil {
-		got := c03AstString(ast)
-		if got == p.str {
-			rep.Eval(key, true, "program")
-			return
-		}
-		if c03NoEmpty(got) == c03NoEmpty(p.str) {
-			rep.Violate("c03-tree:empty-statements", fmt.Sprintf("the tree differs from the grammar's in EmptyStmt nodes only: %q: got %s want %s", src, got, p.str), map[string]interface{}{"src": string(src), "opts": o, "got": got, "expected": p.str})
-			rep.Eval(key, true, "program-empty-statements")
-			return
-		}
-	}
-	if pan == nil {
-		q := c03Piece{toks: p.toks, mode: append([]int8{}, p.mode...), str: p.str}
-		changed := false
-		got, _ := c03Relex(src)
-		for j, t := range q.toks {
-			if t.ty == js.SemicolonToken && j < len(got) && got[j].lt {
-				q.mode[j] = c03NoLT
-				changed = true
-			}
-		}
-		if changed {
-			src2 := c03SpellPlain(q)
-			ast2, err2, pan2 := c03ParseJS(src2, o)
-			if pan2 == nil && err2 == nil && c03NoEmpty(c03AstString(ast2)) == c03NoEmpty(p.str) {
-				if err != nil {
-					rep.Violate("c03-accept:semicolon-after-newline", fmt.Sprintf("grammatical program rejected because a ';' follows a line break: %q: %v", src, c03FirstLine(err)), map[string]interface{}{"src": string(src), "opts": o, "expected": p.str})
-				} else {
-					rep.Violate("c03-tree:empty-statements", fmt.Sprintf("the tree differs from the grammar's in EmptyStmt nodes only: %q: got %s want %s", src, c03AstString(ast), p.str), map[string]interface{}{"src": string(src), "opts": o, "expected": p.str})
-				}
-				rep.Eval(key, true, "program-semicolon-after-newline")
-				return
-			}
-		}
-	}
 	c03AcceptCheck(rep, src, o, p.str, "program", true)
 }
 
